@@ -678,7 +678,32 @@ func ruleSnapshotComplete(r *Report) {
 	for _, fn := range fns {
 		for _, g := range deepFuncs(fn) {
 			for _, rc := range callsWhere(g, func(_ ssa.Instruction, cc *ssa.CallCommon) bool {
-				return methodOn(cc, "github.com/kelindar/bitmap", "Bitmap", "Range") && len(cc.Args) == 2 && isStorageFill(cc.Args[0])
+				if !methodOn(cc, "github.com/kelindar/bitmap", "Bitmap", "Range") || len(cc.Args) != 2 {
+					return false
+				}
+				if isStorageFill(cc.Args[0]) {
+					return true
+				}
+				// a shared helper that is handed the presence bitmap by every caller
+				if par, isPar := strip(cc.Args[0]).(*ssa.Parameter); isPar && par.Parent() != nil && isHelper(par.Parent()) {
+					hf := originOf(par.Parent())
+					uniqueCallOf(hf)
+					idx := -1
+					for i, q := range hf.Params {
+						if q == par {
+							idx = i
+						}
+					}
+					sites := curProg.uniq[hf]
+					all := idx >= 0 && len(sites) > 0
+					for _, ci := range sites {
+						if idx >= len(ci.Common().Args) || !isStorageFill(ci.Common().Args[idx]) {
+							all = false
+						}
+					}
+					return all
+				}
+				return false
 			}) {
 				cc, _, _ := callCommon(rc)
 				row := asFunc(norm(cc.Args[1]))
